@@ -51,7 +51,7 @@ inductive Tag where
   | tooSoon | tooLong | windowSmall | hostValidAddr | hostMissedAddr | voidAddress | voidValue
   | hostValidSmall | hostValidNeMissed | excessiveCollateral | windowEndShrinks
   | voidNeBurn | validBelowBase
-  | hostMissedSmall | afterHardfork | renterSig | fundCost | budget | sessionOver
+  | hostMissedSmall | afterHardfork | renterSig | fundCost | budget | sessionOver | noContract
 deriving DecidableEq, Repr
 
 /-- panic sites, grouped by root cause (`Site.label`) -/
@@ -858,6 +858,60 @@ def execByContract (fx : Bool) (lockAfterPayment : Bool) (c : Rev) (i1 i2 : Site
     let s1 : Sess := { cached := if lockAfterPayment then s1.stored else c, stored := s1.stored }
     if amount < need then (r1, .reject .budget)
     else (r1, (sessStep fx codeFacts .rhp3Finalize s1 i2).2)
+  | _ => (r1, .reject .sessionOver)
+
+/-! ### sessions with a renewal or a formation step -/
+
+/-- one RPC of an RHP2 session -/
+inductive SessOp where
+  /-- rpcSectorRoots / rpcRead / rpcWrite -/
+  | rpc (site : SignSite) (i : SiteIn)
+  /-- rpcRenewAndClearContract: the locked contract is cleared (revision number MaxUint64) and renewed -/
+  | renew (renewal : Rev) (finalVals : List Nat) (expUH height requireHeight : Nat) (st : Settings) (sg : Sigs)
+  /-- rpcFormContract: a NEW contract; the locked contract (if any) is not touched -/
+  | form (fc : Rev) (expUH height requireHeight : Nat) (st : Settings) (sg : Sigs)
+deriving Repr
+
+/-- `rpcRenewAndClearContract` in a session: validated against the CACHED revision; the store then holds the
+clearing revision for the old contract id and the handler must refresh the cache with it
+(`s.contract = signedClearing`, `F.refresh .rhp2RenewClearing`).  Returns the clearing revision. -/
+def sessRenew (fx : Bool) (F : SessFacts) (s : Sess) (renewal : Rev) (finalVals : List Nat)
+    (expUH height requireHeight : Nat) (st : Settings) (sg : Sigs) : Sess × Res (Rev × Nat) :=
+  match rpcRenew2 fx requireHeight s.cached renewal finalVals expUH height st sg with
+  | .ok _ =>
+    match clearingRevision s.cached finalVals with
+    | .ok clr => ({ cached := if F.refresh .rhp2RenewClearing then clr else s.cached, stored := clr }, .ok (clr, 0))
+    | .reject t => (s, .reject t)
+    | .panic p => (s, .panic p)
+  | .reject t => (s, .reject t)
+  | .panic p => (s, .panic p)
+
+def sessOp (fx : Bool) (F : SessFacts) (s : Sess) : SessOp → Sess × Res (Rev × Nat)
+  | .rpc site i => sessStep fx F site s i
+  | .renew renewal fv expUH h rh st sg => sessRenew fx F s renewal fv expUH h rh st sg
+  | .form fc expUH h rh st sg =>
+    match rpcForm2 rh fc expUH h st sg with
+    | .ok rec => (s, .ok (fc, rec.locked))
+    | .reject t => (s, .reject t)
+    | .panic p => (s, .panic p)
+
+/-- does the RPC need a locked contract (`session.ContractRevisable`)? -/
+def SessOp.needsLock : SessOp → Bool
+  | .form .. => false
+  | _ => true
+
+/-- a two-RPC RHP2 session over arbitrary RPC kinds; `locked = false`: the session never called rpcLock, every
+RPC that needs a contract is refused (`ErrNoContractLocked`) -/
+def sessionOps (fx : Bool) (F : SessFacts) (c : Rev) (locked : Bool) (o1 o2 : SessOp) (relock : Bool) :
+    Res (Rev × Nat) × Res (Rev × Nat) :=
+  let run (s : Sess) (o : SessOp) : Sess × Res (Rev × Nat) :=
+    if !locked && o.needsLock then (s, .reject .noContract) else sessOp fx F s o
+  let s0 := sessLock { cached := c, stored := c }
+  let (s1, r1) := run s0 o1
+  match r1 with
+  | .ok _ =>
+    let s1 := if relock && locked then sessLock s1 else s1
+    (r1, (run s1 o2).2)
   | _ => (r1, .reject .sessionOver)
 
 end Hostd.Revision
